@@ -1,6 +1,7 @@
 //! Independent reference implementations, written from the standards' text.
 pub mod sm3;
 pub mod sm4;
+pub mod zuc;
 
 pub fn self_test_all() -> Result<usize, String> {
     let mut n = 0;
@@ -8,6 +9,8 @@ pub fn self_test_all() -> Result<usize, String> {
     n += 3;
     sm4::self_test()?;
     n += 4;
+    zuc::self_test()?;
+    n += 9;
     Ok(n)
 }
 
@@ -16,6 +19,9 @@ pub fn self_test_for(prop: &str) -> Result<(), String> {
     sm3::self_test()?;
     if matches!(prop, "C02" | "C07" | "C20") {
         sm4::self_test()?;
+    }
+    if matches!(prop, "C08" | "C18" | "C20") {
+        zuc::self_test()?;
     }
     Ok(())
 }
